@@ -391,6 +391,39 @@ func genS3(c *bx.Ctx, x byteSink) {
 				}
 			}
 		}
+		// structure-aware second deviations: the padding flag together with every value of the last
+		// octet (the RTCP padding count), and for representative seeds the whole first octet crossed
+		// with the last octet and with the low octet of the length field
+		if n >= 4 {
+			if c.MineBlock(0) {
+				copy(buf, s.b)
+				buf[0] |= 0x20
+				for v := 0; v < 256; v++ {
+					buf[n-1] = byte(v)
+					c.Add(1)
+					sendAll(buf[:n])
+				}
+			}
+			if s.rep {
+				for b0 := 0; b0 < 256; b0++ {
+					if !c.MineBlock(0) {
+						continue
+					}
+					if c.Expired() {
+						return
+					}
+					for _, o := range []int{n - 1, 3} {
+						copy(buf, s.b)
+						buf[0] = byte(b0)
+						for v := 0; v < 256; v++ {
+							buf[o] = byte(v)
+							c.Add(1)
+							sendNear(buf[:n])
+						}
+					}
+				}
+			}
+		}
 		// 16-bit control fields x all 65536 values
 		if s.rep || (c.Thorough() && n <= 256) {
 			seen := map[int]bool{}
